@@ -59,4 +59,42 @@ def CodeGuardsOK (T : α) (r : Line3 α) (b : Box3 α) : Prop :=
   (r.dir.y = 0 ∨ CodeGuard T r.pos.y r.dir.y b.min.y b.max.y) ∧
   (r.dir.z = 0 ∨ CodeGuard T r.pos.z r.dir.z b.min.z b.max.z)
 
+/-! ## What the code decides when a guard FAILS (vocabulary of the `_guardpath` theorems)
+
+The right-hand sides of `findEntryAndExitPoints_guardpath` / `intersects_guardpath`
+(`Props/C14.lean`) are stated with the predicates below.  `inSlab` and `feEff` are
+geometric; `isEff` is by necessity a re-spelling of what one `intersects` block does
+with a failing guard (front parameter replaced by `T`, back bound dropped) — the
+geometric content of that theorem is carried by `intersects_never_misses`,
+`intersects_iff_window` and `intersects_false_hit_only_if`. -/
+
+/-- `t` is a parameter of the line inside the slab `[lo, hi]` of one axis. -/
+def inSlab (p d lo hi t : α) : Prop := lo ≤ p + t * d ∧ p + t * d ≤ hi
+
+/-- What one axis block of `findEntryAndExitPoints` contributes to the
+parameter set: the exact slab when the guard passes; when it fails the block
+treats the direction component as zero. -/
+def feEff (T p d lo hi t : α) : Prop :=
+  (CodeGuard T p d lo hi → inSlab p d lo hi t) ∧ (¬ CodeGuard T p d lo hi → lo ≤ p ∧ p ≤ hi)
+
+/-- Effective parameter set of the three axis blocks of `findEntryAndExitPoints`. -/
+def feEff3 (T : α) (r : Line3 α) (b : Box3 α) (t : α) : Prop :=
+  feEff T r.pos.x r.dir.x b.min.x b.max.x t ∧ feEff T r.pos.y r.dir.y b.min.y b.max.y t ∧
+  feEff T r.pos.z r.dir.z b.min.z b.max.z t
+
+/-- What one axis block of `intersects` contributes, exactly as coded (including
+the `TMAX` substitution for the front parameter and the skipped back update
+when a guard fails). -/
+def isEff (T p d lo hi t : α) : Prop :=
+  (0 < d → p ≤ hi ∧ ((d > 1 ∨ hi - p < T * d) → t ≤ (hi - p) / d) ∧
+            (p ≤ lo → (if d > 1 ∨ lo - p < T * d then (lo - p) / d else T) ≤ t)) ∧
+  (d < 0 → lo ≤ p ∧ ((d < -1 ∨ lo - p > T * d) → t ≤ (lo - p) / d) ∧
+            (hi ≤ p → (if d < -1 ∨ hi - p > T * d then (hi - p) / d else T) ≤ t)) ∧
+  (d = 0 → lo ≤ p ∧ p ≤ hi)
+
+/-- Effective parameter set of the three axis blocks of `intersects`. -/
+def isEff3 (T : α) (r : Line3 α) (b : Box3 α) (t : α) : Prop :=
+  isEff T r.pos.x r.dir.x b.min.x b.max.x t ∧ isEff T r.pos.y r.dir.y b.min.y b.max.y t ∧
+  isEff T r.pos.z r.dir.z b.min.z b.max.z t
+
 end ImathVerif.RayBox
